@@ -208,7 +208,14 @@ def run_unit(u):
         envbak[k] = os.environ.get(k)
         os.environ[k] = v
     try:
-        r = run(script=text, data_structures=ds, datapoints=dps, scalar_values=svals or None,
+        script = text
+        if u.get('via') == 'prettify':        # C24: the statement goes through prettify() first
+            from vtlengine import prettify
+            script = text = prettify(text)
+        elif u.get('via') == 'sdmx':          # C25: ... through generate_sdmx(); the TransformationScheme is what is run
+            from vtlengine import generate_sdmx
+            script = generate_sdmx(text, agency_id='MD', id='TS1')
+        r = run(script=script, data_structures=ds, datapoints=dps, scalar_values=svals or None,
                 return_only_persistent=False, **kw)
         res = r[u.get('result', 'R')]
         obs = values.enc_result(res)
